@@ -44,9 +44,15 @@ EXT_SRC = [
     "1" + "0" * 400,                 # an int beyond the range of a double
     "0 - 1" + "0" * 400,
     "1" + "0" * 5000,                # beyond the host's int <-> text limit
+    # appended later (indices of the entries above are used by replay files):
+    # the top of the double range and digit counts that reach it
+    "decimal('1.7e308')", "decimal('-1.7e308')", "0 - 308", "308", "0 - 400",
+    # inputs that fail on the host side (bound per run by _fresh_inputs)
+    "badin", "noin",
 ]
-EXT_KIND = ["decimal"] * 6 + ["int"] * 5 + ["date"] * 3 + ["int"] * 3
-EXT_DECIMAL = set(range(N, N + 6))
+EXT_KIND = ["decimal"] * 6 + ["int"] * 5 + ["date"] * 3 + ["int"] * 3 + \
+    ["decimal"] * 2 + ["int"] * 3 + ["input"] * 2
+EXT_DECIMAL = set(range(N, N + 6)) | {N + 17, N + 18}
 EXT_BIGINT = set(range(N + 6, N + 11)) | {N + 14, N + 15, N + 16}
 POOL_SRC = POOL_SRC + EXT_SRC
 POOL_KIND = POOL_KIND + EXT_KIND
@@ -201,6 +207,8 @@ class Sweeper:
         if i == 28:
             return self._fn0
         if N <= i < N_EXT:
+            if POOL_KIND[i] == "input":
+                self._fresh_inputs()
             return self.it.interpret(POOL_SRC[i], "pool")
         raise IndexError(i)
 
@@ -219,6 +227,7 @@ class Sweeper:
         if os.getcwd() != self.cwd:
             os.chdir(self.cwd)
         self.it.setStandardInput(self.cv.StringInput("line1\nline2\n"))
+        self._fresh_inputs()
         if self.out.closed:         # a generated close(stdout)
             self.out = io.StringIO()
             self.it.setStandardOutput(self.out)
@@ -271,6 +280,20 @@ class Sweeper:
         except BaseException as e:
             return ("host", type(e).__name__,
                     cklrun.repo_frame(e.__traceback__), str(e)[:200])
+
+    def _fresh_inputs(self):
+        """Inputs that fail on the host side, as a program meets them when
+        standard input is not text or is not there: `badin` yields bytes that
+        are not UTF-8, `noin` has no stream behind it."""
+        cv = self.cv
+        if not hasattr(cv, "StreamInput"):
+            return
+        bad = io.TextIOWrapper(io.BytesIO(b"ok\n\xff\xfe\xfa bad\nmore\n"),
+                               encoding="utf-8")
+        for name, stream in (("badin", bad), ("noin", None)):
+            v = cv.ValueInput(cv.StreamInput(stream))
+            self.it.base_environment.map[name] = v
+            self._base_map[name] = v
 
     def _restore_base(self):
         m = self.it.base_environment.map
